@@ -306,6 +306,7 @@ pub trait Property: Sync {
 
 #[derive(Default, Serialize)]
 pub struct RunReport {
+    pub cases_skipped_for_time: usize,
     pub property_id: String,
     pub evaluations: usize,
     pub distinct_nontrivial: usize,
@@ -440,6 +441,8 @@ pub struct RunCfg {
     pub cases: usize,
     pub replay_dir: PathBuf,
     pub threads: usize,
+    /// wall-clock budget of the execution phase, seconds
+    pub budget_secs: u64,
 }
 
 fn write_replay<P: Property>(
@@ -490,10 +493,17 @@ pub fn run_property<P: Property>(p: &P, cfg: &RunCfg) -> anyhow::Result<RunRepor
     let mut results: Vec<Option<Result<Vec<Line>, String>>> = (0..n).map(|_| None).collect();
     let threads = if p.parallel() { cfg.threads.max(1) } else { 1 };
     let chunk = n.div_ceil(threads).max(1);
+    // wall-clock budget for the execution phase: on a healthy tree a run is far below it; a broken
+    // implementation that makes many cases wait for their internal timeouts stops being explored
+    // once the budget is used up (what was executed is still judged)
+    let budget = std::time::Duration::from_secs(cfg.budget_secs);
     std::thread::scope(|s| {
         for (ops_chunk, res_chunk) in named.chunks(chunk).zip(results.chunks_mut(chunk)) {
             s.spawn(move || {
                 for ((name, ops), slot) in ops_chunk.iter().zip(res_chunk.iter_mut()) {
+                    if t0.elapsed() > budget {
+                        break;
+                    }
                     if std::env::var("VERIF_TRACE").is_ok() {
                         eprintln!("case {name}: {}", serde_json::to_string(ops).unwrap_or_default());
                     }
@@ -502,6 +512,20 @@ pub fn run_property<P: Property>(p: &P, cfg: &RunCfg) -> anyhow::Result<RunRepor
             });
         }
     });
+    // cases not executed for lack of time are dropped (their number goes into the report)
+    let mut kept_named = Vec::new();
+    let mut kept_results = Vec::new();
+    for (nm, r) in named.into_iter().zip(results.into_iter()) {
+        match r {
+            Some(r) => {
+                kept_named.push(nm);
+                kept_results.push(Some(r));
+            }
+            None => report.cases_skipped_for_time += 1,
+        }
+    }
+    let named = kept_named;
+    let results = kept_results;
     // 3. compare with the model
     let mut ok_idx = Vec::new();
     let mut ok_lines = Vec::new();
